@@ -363,6 +363,12 @@ func (pConn *PFCPConn) handleSessionModificationRequest(msg message.Message) (me
 		qers: addQERs,
 	}
 
+	// a Remove IE that names an unknown rule refuses the whole request:
+	// find that out before the created and updated rules are programmed
+	if err := session.checkRemovals(smreq); err != nil {
+		return sendError(err)
+	}
+
 	cause := upf.SendMsgToUPF(upfMsgTypeMod, session.PacketForwardingRules, updated)
 	if cause == ie.CauseRequestRejected {
 		return sendError(ErrWriteToDatapath)
@@ -605,6 +611,71 @@ func (pConn *PFCPConn) handleSessionReportResponse(msg message.Message) error {
 		}
 
 		return nil
+	}
+
+	return nil
+}
+
+// checkRemovals tells whether every rule named by a Remove PDR/FAR/QER IE of the request exists in the session.
+func (s *PFCPSession) checkRemovals(smreq *message.SessionModificationRequest) error {
+	for _, rPDR := range smreq.RemovePDR {
+		pdrID, err := rPDR.PDRID()
+		if err != nil {
+			return err
+		}
+
+		found := false
+
+		for _, v := range s.pdrs {
+			if v.pdrID == uint32(pdrID) {
+				found = true
+				break
+			}
+		}
+
+		if !found {
+			return ErrNotFound("PDR")
+		}
+	}
+
+	for _, rFAR := range smreq.RemoveFAR {
+		farID, err := rFAR.FARID()
+		if err != nil {
+			return err
+		}
+
+		found := false
+
+		for _, v := range s.fars {
+			if v.farID == farID {
+				found = true
+				break
+			}
+		}
+
+		if !found {
+			return ErrNotFound("FAR")
+		}
+	}
+
+	for _, rQER := range smreq.RemoveQER {
+		qerID, err := rQER.QERID()
+		if err != nil {
+			return err
+		}
+
+		found := false
+
+		for _, v := range s.qers {
+			if v.qerID == qerID {
+				found = true
+				break
+			}
+		}
+
+		if !found {
+			return ErrNotFound("QER")
+		}
 	}
 
 	return nil
